@@ -180,6 +180,12 @@ func runFaults(prop string, seed uint64, n int, tier string) {
 			c := genNC("C08", r)
 			c.Prop = "C05"
 			c.ChunkMode = []int{0, 2, 4}[c.ChunkMode%3]
+			for j := range c.Ops {
+				if len(c.Ops[j].Body) > 60000 {
+					// (a large late reply stays in large chunks: five-byte chunks of 80 kB are beyond the model runner)
+					c.ChunkMode = []int{0, 2}[c.ChunkMode%2]
+				}
+			}
 			late := false
 			for j := range c.Ops {
 				if c.Ops[j].Beh != 0 {
